@@ -99,7 +99,18 @@ fn lookups(sm: &SourceMap, pos: &[(u32, u32)], extra: &[(u32, u32)], stage: &str
 fn lookups_via(sm: &SourceMap, as_decoded: &DecodedMap, pos: &[(u32, u32)], extra: &[(u32, u32)], stage: &str, obs: &mut Obs) -> Result<LookupStats, String> {
     let mut st = LookupStats { exact_dup: false, between: false, before_first: false, later_line: false };
     let raws: Vec<sourcemap::RawToken> = if pos.len() <= 200 { sm.tokens().map(|t| t.get_raw_token()).collect() } else { vec![] };
-    for q in queries_for(pos, extra) {
+    // every query is asked on the same object in ascending order, then in descending order, then
+    // once more right after a query far away: an answer must not depend on what was asked before
+    let asc = queries_for(pos, extra);
+    let mut order: Vec<(u32, u32)> = asc.clone();
+    if asc.len() <= 4000 {
+        order.extend(asc.iter().rev().copied());
+        for (k, q) in asc.iter().enumerate() {
+            order.push(asc[(k * 7 + 3) % asc.len()]);
+            order.push(*q);
+        }
+    }
+    for q in order {
         obs.inner_evals += 1;
         let want = ref_lookup_index(pos, q);
         let got = guard(|| sm.lookup_token(q.0, q.1).map(|t| t.get_raw_token()))
